@@ -559,6 +559,25 @@ fn judge(b: &Built, meta: &Meta, l: &mut Local, verbose: bool) {
                     return Err("the first error's range is invalid".to_string());
                 }
                 let (line, _) = line_col(t, s);
+                if meta.layout == "directed-multi-line-asm-block" && !accepted.iter().any(|(af, al)| *af == f && *al == line) {
+                    // the faulty line lies inside an expression that spans several lines: the outermost error may name
+                    // the whole expression, if it covers the faulty line and an error nested in it names that line alone
+                    let (eline, _) = line_col(t, e.saturating_sub(1).max(s));
+                    if f != b.fault.0 || !(line <= b.fault.1 && b.fault.1 <= eline) {
+                        return Err(format!("the first error covers {}:{}..{} (bytes {}..{}), the fault is on {}:{}", f, line, eline, s, e, b.fault.0, b.fault.1));
+                    }
+                    let mut inner = vec![];
+                    for i in &m.inner {
+                        located(i, &mut inner);
+                    }
+                    let on_fault_line = inner.iter().any(|n| {
+                        n.kind == "error" && n.file.as_deref() == Some(f.as_str()) && n.range.map(|(ns, ne)| ns <= t.len() && t.is_char_boundary(ns) && line_col(t, ns).0 == b.fault.1 && ne <= line_extent(t, b.fault.1).1).unwrap_or(false)
+                    });
+                    if !on_fault_line {
+                        return Err(format!("the first error covers the lines {}..{} of {} and no error nested in it names the faulty line {} alone", line, eline, f, b.fault.1));
+                    }
+                    return Ok(());
+                }
                 if !accepted.iter().any(|(af, al)| *af == f && *al == line) {
                     return Err(format!("the first error is located at {}:{} (bytes {}..{}), the fault is on {}:{}", f, line, s, e, b.fault.0, b.fault.1));
                 }
@@ -743,6 +762,55 @@ pub fn run(ctx: &Ctx) -> Report {
             l.nontrivial(&b.files);
             l.class("fault:malformed-directive");
             judge(b, &Meta { kind: "malformed-directive", layout: "directed-multi-line-block", dec: "none", coords: json!({"fault_text": "#outpt 0", "fault_line": b.fault.1}) }, l, false);
+        }));
+    }
+    // directed: an instruction nobody defines on the k-th line of a multi-line `asm` block used as an expression (data
+    // element, constant): the error belongs to that line, not to the line that opens the block
+    {
+        let mut directed: Vec<Built> = vec![];
+        let body = ["    nop", "    ld 0x12 ; \u{e9}", "    nop"];
+        for opener in ["#d asm {", "#d8 0x55, asm {", "kk = asm {", "#d 0x1 @ asm {"] {
+            for bad in 0..=body.len() {
+                for in_include in [false, true] {
+                    for deco in [false, true] {
+                        let mut lines: Vec<String> = vec![];
+                        if deco {
+                            lines.push("; \u{e9}\u{2192}\u{1f600}".into());
+                        }
+                        lines.push("#ruledef {".into());
+                        lines.push("    nop => 0x00".into());
+                        lines.push("    ld {x: u8} => 0x10 @ x".into());
+                        lines.push("}".into());
+                        lines.push(opener.into());
+                        let mut fault_line = 0;
+                        for (k, f) in body.iter().enumerate() {
+                            if k == bad {
+                                lines.push("    xyz 1".into());
+                                fault_line = lines.len();
+                            }
+                            lines.push(f.to_string());
+                        }
+                        if bad == body.len() {
+                            lines.push("    xyz 1".into());
+                            fault_line = lines.len();
+                        }
+                        lines.push(if opener.starts_with("#d 0x1") { "} @ 0x2".into() } else { "}".into() });
+                        lines.push("#d8 1".into());
+                        let text = lines.join("\n") + "\n";
+                        let (files, fault) = if in_include {
+                            (vec![("main.asm".to_string(), "; \u{e9}\n#include \"code.asm\"\n".to_string()), ("code.asm".to_string(), text)], ("code.asm".to_string(), fault_line))
+                        } else {
+                            (vec![("main.asm".to_string(), text)], ("main.asm".to_string(), fault_line))
+                        };
+                        directed.push(Built { files, fault, also: vec![], judge_first: true });
+                    }
+                }
+            }
+        }
+        rep.absorb(par_cases(&directed, |b, l| {
+            l.nontrivial(&b.files);
+            l.class("fault:unknown-instr");
+            judge(b, &Meta { kind: "unknown-instr", layout: "directed-multi-line-asm-block", dec: "none", coords: json!({"fault_text": "xyz 1", "fault_line": b.fault.1}) }, l, false);
         }));
     }
     rep.extra("bound", json!({"max_items": maxlen, "alphabet": ITEMS, "rules": RULES, "decorations": DECS, "fault_variants": ["xyz 1", "ld undefined_sym", "ld 0x1ff", "ld 256", "#d8 ,", "#res", "#bogus", "#d8 1 +", "#ruledef { => 0x55 }", "#d byte(300)", "kk = byte(300)", "repeat of each label redeclarable at that position"]}));
